@@ -11,7 +11,7 @@ SIMC = os.path.join(ROOT, "build", "simc")
 
 def crash_class(stderr):
     for l in stderr.splitlines():
-        if "SUMMARY:" in l or "Assertion" in l or "runtime error" in l:
+        if "SUMMARY:" in l or "Assertion" in l or "runtime error" in l or "what():" in l:
             l = re.sub(r"0x[0-9a-f]+", "", l)
             l = re.sub(r"\(/[^)]*\)", "", l)
             l = re.sub(r"==\d+==", "", l)
